@@ -148,7 +148,7 @@ def field_cases_level3(ls_core3):
         m2.append((a[0] + ["sq"], a[1] * a[1] % PP, "M"))
         for b in lf:
             m2.append(mul_m(a, b))
-    A3 = a_forms(lf[:2] + m2[::7])
+    A3 = a_forms(lf[:2] + m2[::(max(1, len(m2) // 120))])
     for a in A3:
         for m in unary_ms(a)[:4]:
             out.append(observe(m))
